@@ -184,10 +184,19 @@ static int op_arr_add(struct wctx *c)
 static void setup_str(struct wctx *c)
 {
 	c->pre = json_object_new_string("short");
+	if (c->arg >= 2)
+		/* already moved to separately allocated storage by an earlier set */
+		json_object_set_string(c->pre, "a first, longer value that no longer fits inline");
 }
 static int op_set_string(struct wctx *c)
 {
-	int rc = c->arg ? json_object_set_string_len(c->pre, "0123456789012345678901234567890123456789", 40) : json_object_set_string(c->pre, "longer than before, separately stored");
+	int rc;
+	if (c->arg == 2)
+		rc = json_object_set_string(c->pre, "a second value, longer still than the first one, so the separate buffer must be replaced");
+	else if (c->arg == 3)
+		rc = json_object_set_string_len(c->pre, "tiny", 4); /* fits the existing separate buffer */
+	else
+		rc = c->arg ? json_object_set_string_len(c->pre, "0123456789012345678901234567890123456789", 40) : json_object_set_string(c->pre, "longer than before, separately stored");
 	if (rc != 1)
 		return R_FAIL;
 	dump_to(c->pre, &c->res);
@@ -485,6 +494,8 @@ static const struct wl WL[] = {
     W("array_shrink", "add", setup_arr32, op_arr_add, 4),
     W("set_string growing", "setstr", setup_str, op_set_string, 0),
     W("set_string_len growing", "setstr", setup_str, op_set_string, 1),
+    W("set_string growing again (separate storage)", "setstr", setup_str, op_set_string, 2),
+    W("set_string_len shrinking (separate storage)", "setstr", setup_str, op_set_string, 3),
     W("deep_copy long string", "copy", setup_doc, op_deep_copy, 0),
     W("deep_copy 34 elements", "copy", setup_doc, op_deep_copy, 1),
     W("deep_copy 12 members", "copy", setup_doc, op_deep_copy, 2),
